@@ -103,7 +103,7 @@ P("C08", [f"{RED}:_greedy_prune_partition", f"{RED}:CoolerCoarsener.__init__", f
   "Proof core: CoolerCoarsener.__init__ builds, for every chromosome layout, factor and chunk size, a pixel partition whose every edge is the offset of a coarse-row start (bin1_offset[chrom_offset[c] + g*factor]) or nnz (loop invariant with ghost witnesses; Cooler/GenomeSegmentation by assumed models), and _greedy_prune_partition keeps only values of that edge list, ordered, from 0 to nnz - so no coarse row is ever split across spans; get_binsize (which decides the re-binning path) is truthful (C20). Bounded stand-in for the rest (all small coolers x factors x chunk sizes x workers against a block-aggregate model). CoolerCoarsener._aggregate (where each fine pixel goes) is verified for every chunk, chromosome layout, bin size and factor k >= 2: for both ends of every pixel the new bin id is new_chrom_offset[c] + (fine_id - old_chrom_offset[c]) div k - the coarse bin containing the fine bin - on the fixed-width path (floor(start/(k*binsize)); nonlinear quotient/remainder lemma as hint) and on the variable-width path (searchsorted over the absolute starts of the coarse bins; hint chain), the rows read are exactly the span, and the chunk is grouped by the new key, sorted, and aggregated with the coarsener's functions. CoolerCoarsener.__iter__ (coordinator, 0..5 spans with symbolic edges, batch sizes 1..3): the spans are the consecutive edge pairs, handed to the worker map in consecutive batches, each exactly once, and the stream yields one chunk per span IN SPAN ORDER; the lock is held around a batch iff batchsize > 1 and always released.",
   level="other", unverified=["the worker map (assumed: results in input order, as builtin map and Pool.map)", "pandas groupby/aggregate and the joined pixel selector (assumed by the _aggregate stubs)", "coarsen_bins (bin table construction; pandas groupby/apply)"])
 
-P("C09", [f"{RED}:get_multiplier_sequence", f"{RED}:zoomify_cooler", f"{RED}:coarsen_cooler", "cooler.fileops:is_multires_file", "cooler.fileops:list_coolers"], "bounded/C09.py",
+P("C09", [f"{RED}:get_multiplier_sequence", f"{RED}:zoomify_cooler", f"{RED}:coarsen_cooler", f"{RED}:CoolerCoarsener.__iter__", "cooler.fileops:is_multires_file", "cooler.fileops:list_coolers"], "bounded/C09.py",
   "Proof core: the zoom plan (three loops with invariants and a variant): every non-base resolution is derived from the LARGEST smaller member dividing it with multiplier >= 2, a supplied base is never re-derived, and a non-derivable member is refused exactly. Bounded stand-in for the rest (plan level: all subsets of resolutions x bases; file level against direct coarsening). zoomify_cooler (coordinator, four concrete plans - chain, fan-out with an extra value column, two interleaved bases, base only - with symbolic file names, chunk size and options; the plan comes from get_multiplier_sequence's contract): the output is truncated exactly once and re-opened r+ afterwards, inputs are only read; every base level is a copy of its own input's chroms, bins, requested pixel columns, indexes and attributes under /resolutions/<binsize>; every planned non-base level is produced by exactly one coarsen_cooler call, in plan order, from the predecessor and with the factor the plan names, inside the output in r+ mode; base levels are never re-derived; the file is finally marked HDF5::MCOOL. is_multires_file / list_coolers over a ghost tree with symbolic format attributes: recognised iff the root is marked MCOOL and the first resolution is a collection (False, not an error, otherwise); every resolution that is a collection is listed once.",
   level="other", unverified=["zoomify_cooler for plans other than the four verified shapes (its loops do not depend on the plan length)", "coarsen_bins (bin table construction)"])
 
